@@ -16,7 +16,7 @@ Tier == IF "VERIF_TIER" \in DOMAIN IOEnv THEN IOEnv.VERIF_TIER ELSE "quick"
 Quick == Tier = "quick"
 
 \* ------------------------------------------------------------------ textures
-PatByte(s, k) == (k * k * 7 + k * 131 + s * 29 + (((k \div 3) * 97) % 251)) % 256
+PatByte(s, kk) == LET k == kk % 4093 IN (k * k * 7 + k * 131 + s * 29 + (((k \div 3) * 97) % 251) + (kk \div 4093)) % 256
 \* an ETC block outside the ETC1 rules is turned into an individual-mode block
 FixEtc(fmt, b) ==
   IF fmt \notin EtcFormats THEN b
@@ -80,6 +80,20 @@ SameShape(fmt, w, h, names) == Tup([i \in 1..Len(names) |-> Tex(names[i], w, h, 
 LenNames(c, lens) == Tup([i \in 1..Len(lens) |-> LName(c, lens[i])])
 ShortNames == << NmA, NmB, NmC, NmD, NmE, NmF >>
 
+\* ---- payload sizes that go DOWN (and up and down) along the list: a reader that keeps a
+\* buffer or a length from the previous texture reads too much for the next one.  Together with
+\* the placements that put the payloads in list order at the very end of the file (no byte
+\* after the last payload; CoverInv below) the too-long read runs into the end of the file.
+Dec3DS   == << Tex(NmA, 16, 8, RGBA8, 74), Tex(NmB, 8, 8, RGBA5551, 75), Tex(NmC, 8, 8, L8, 76), Tex(NmD, 8, 8, ETC1, 77) >>
+Mixed3DS == << Tex(NmB, 8, 8, L8, 81), Tex(NmA, 8, 8, RGBA8, 82), Tex(NmF, 8, 8, ETC1, 83),
+               Tex(NmC, 8, 16, RGBA4, 84), Tex(NmD, 8, 8, A8, 85), Tex(NmE, 8, 8, ETC1, 86) >>
+\* ---- integer-width boundaries of the size fields: w * h = 65 536 does not fit the 16 bits of
+\* the width / height fields' own type, and a payload of exactly 65 536 bytes
+BigSquare == Tex(NmA, 256, 256, L8, 70)
+BigWide   == Tex(NmC, 512, 128, A8, 71)
+BigBytes  == Tex(NmD, 256, 128, RGB565, 73)
+IsBigList(v) == \E i \in 1..Len(v) : Len(v[i].payload) >= 65536
+
 Lists3DS(c) ==
   << <<>>, <<T1>>, <<T2, T3, T4>>, <<T9, T6, T7, T5, T1, T8>>,
      \* name lengths around 32 / 64 / 128 / 256 stored bytes, same-shape L8 textures
@@ -88,8 +102,10 @@ Lists3DS(c) ==
      SameShape(A8, 8, 8, LenNames(c, <<256, 257>>)),
      SameShape(RGBA8, 8, 8, SubSeq(ShortNames, 1, 3)),
      SameShape(ETC1A4, 8, 8, SubSeq(ShortNames, 4, 6)) >>
+  \o << Dec3DS, Mixed3DS, << BigSquare, Tex(NmB, 8, 8, L8, 72) >> >>
   \o (IF Quick THEN <<>>
-      ELSE << <<T5, T6>>, <<T7, T8, T9, T1>>, <<T6, T5, T4, T3, T2>>, <<T3, T3>>,
+      ELSE << << Tex(NmF, 8, 8, A8, 78), BigWide >>, << BigBytes >>,
+              <<T5, T6>>, <<T7, T8, T9, T1>>, <<T6, T5, T4, T3, T2>>, <<T3, T3>>,
               SameShape(ETC1, 16, 8, ShortNames), SameShape(RGBA5551, 8, 8, ShortNames),
               SameShape(RGB565, 8, 16, SubSeq(ShortNames, 1, 4)), SameShape(RGBA4, 8, 8, SubSeq(ShortNames, 2, 5)),
               SameShape(LA8, 8, 8, SubSeq(ShortNames, 3, 6)),
@@ -107,12 +123,31 @@ PalTex2(w, h, n, si, sp) ==
   [name |-> <<>>, w |-> w, h |-> h, fmt |-> CI8,
    payload |-> Tup([k \in 1..CI8PayloadSize(w, h) |-> PatByte(si, k) % n]),
    pal |-> Tup([k \in 1..(2 * n) |-> PatByte(sp, k + 300)])]
+\* palette image whose indices deliberately include both ends of the index range
+\* (0, 1, n-2, n-1) in the first rows of the first block, i.e. inside every crop of >= 6 texels
+EdgeIdx(n, j) == CASE j = 0 -> 0 [] j = 1 -> 1 % n [] j = 2 -> (2 * n - 2) % n [] j = 3 -> n - 1
+PalEdge(w, h, n, seed) ==
+  [name |-> <<>>, w |-> w, h |-> h, fmt |-> CI8,
+   payload |-> Tup([k \in 1..CI8PayloadSize(w, h) |->
+                      \* the four left-most texels of every block row carry the range ends, rotated per row
+                      IF (k - 1) % 8 < 4 THEN EdgeIdx(n, (((k - 1) % 8) + ((k - 1) \div 8)) % 4)
+                      ELSE PatByte(seed, k) % n]),
+   pal |-> Tup([k \in 1..(2 * n) |-> PatByte(seed + 1, k + 300)])]
+CropIndices(t) == { t.payload[CI8Index(t.w, x, y) + 1] : x \in 0..(t.w - 1), y \in 0..(t.h - 1) }
+EdgeTpl  == << PalEdge(5, 3, 256, 51), PalEdge(8, 4, 255, 52), PalEdge(5, 3, 2, 53), PalEdge(4, 4, 1, 54), PalEdge(9, 5, 256, 55) >>
+ASSUME \A i \in 1..Len(EdgeTpl) :
+         LET t == EdgeTpl[i]  n == Len(t.pal) \div 2
+         IN { EdgeIdx(n, j) : j \in 0..3 } \subseteq CropIndices(t)
+DecTpl   == << PalTex2(17, 9, 256, 41, 42), PalTex2(16, 8, 40, 43, 44), PalTex2(8, 4, 4, 45, 46) >>
+MixedTpl == << PalTex2(8, 4, 4, 47, 48), PalTex2(16, 8, 256, 49, 50), PalTex2(1, 1, 2, 56, 57),
+               PalTex2(9, 9, 40, 58, 59), PalTex2(3, 3, 255, 63, 64) >>
 ListsTpl ==
   << <<>>, <<P1>>, <<P2, P3, P4>>, <<P1, P2, P3, P4, P6, P3>>,
      \* same shape and palette LENGTH throughout: same indices / other palette, same palette /
      \* other indices, both different
      << PalTex2(8, 4, 16, 21, 31), PalTex2(8, 4, 16, 21, 32), PalTex2(8, 4, 16, 22, 32), PalTex2(8, 4, 16, 23, 33) >>,
      Tup([i \in 1..6 |-> PalTex2(5, 3, 256, 50 + i, 70 + i)]) >>
+  \o << DecTpl, MixedTpl, EdgeTpl, << PalEdge(256, 256, 256, 61), PalEdge(3, 2, 2, 62) >> >>
   \o (IF Quick THEN <<>>
       ELSE << <<P4, P6>>, <<P5, P1, P3, P2>>, <<P6, P4, P3, P2, P1>>, <<P4, P4>>,
               Tup([i \in 1..6 |-> PalTex2(9, 5, 3, 80, 90 + i)]), Tup([i \in 1..5 |-> PalTex2(1, 1, 1, 5, 100 + 7 * i)]),
@@ -155,7 +190,11 @@ ListsBch  == Lists3DS("bch")
 ListsCgfx == Lists3DS("cgfx")
 Lists(c) == CASE c = "ctpk" -> ListsCtpk [] c = "bch" -> ListsBch [] c = "cgfx" -> ListsCgfx [] c = "tpl" -> ListsTpl
 
-Cases == UNION { { <<c, vi, pi>> : vi \in 1..Len(Lists(c)), pi \in 1..Len(Placements(c)) } : c \in Containers }
+\* (the lists with a 64 KiB payload get every 8th placement of the thorough product)
+Cases == UNION { UNION { { <<c, vi, pi>> : pi \in { q \in 1..Len(Placements(c)) :
+                                                     Quick \/ ~IsBigList(Lists(c)[vi]) \/ q % 8 = 1 } }
+                         : vi \in 1..Len(Lists(c)) }
+                 : c \in Containers }
 CaseSeq == SetToSeq(Cases)
 NBuckets == 24
 
@@ -168,6 +207,14 @@ IsCase == k[1] \in Containers
 
 \* ------------------------------------------------------------------ laws
 Damaged(f, at, x) == [f EXCEPT ![at] = IF f[at] >= x THEN f[at] - x ELSE f[at] + x]
+\* prefix lengths on which the reference reader is evaluated: all of them for files up to 4 KiB;
+\* for the 64 KiB files the first KiB, every 61st length and 64 lengths either side of every payload
+\* boundary (well-formedness of a prefix is monotone in its length; mila itself is run on EVERY prefix)
+PrefixSample(ext) ==
+  LET m == MinOk(ext) IN
+  IF m <= 4096 THEN 0..(m - 1)
+  ELSE { n \in 0..(m - 1) : \/ n < 1024 \/ n % 61 = 0
+                             \/ \E i \in 1..Len(ext) : \E e \in {ext[i][1], ext[i][2]} : n >= e - 64 /\ n <= e + 64 }
 Law(c, v, p) ==
   LET f   == File(c, v, p)
       ext == Extents(c, v, p)
@@ -185,12 +232,25 @@ Law(c, v, p) ==
                      /\ Disjoint(ext \o pe)
      /\ MinOk(ext) <= Len(f)
      \* the reference reader rejects every prefix that cuts a payload ...
-     /\ \A n \in 0..(MinOk(ext) - 1) : ~WellFormed(c, SubSeq(f, 1, n))
+     /\ \A n \in PrefixSample(ext) : ~WellFormedN(c, f, n)
      \* ... and every damaged magic number
      /\ ChecksMagic(c) => \A at \in 1..4 : \A x \in {1, 128} : ~WellFormed(c, Damaged(f, at, x))
      \* the canonical placement is one of the layouts
      /\ (c = "ctpk" /\ p = CtpkCanonP) => f = CtpkCanon(v)
-LawInv == IsCase => Law(k[1], Lists(k[1])[k[2]], Placements(k[1])[k[3]])
+\* coverage of the model itself (vacuity guards, evaluated on the root state): every container has
+\* a file in which a texture with a smaller payload than its predecessor ends the file, and a
+\* texture whose width * height reaches 65 536
+ShrinkAtEof(c, v, p) ==
+  \E i \in 2..Len(v) : Len(v[i].payload) < Len(v[i - 1].payload) /\ Extents(c, v, p)[i][2] = Len(File(c, v, p))
+DecList(c) == IF c = "tpl" THEN DecTpl ELSE Dec3DS
+CoverInv ==
+  k = <<"root">> =>
+    \A c \in Containers :
+      /\ \E vi \in 1..Len(Lists(c)) : Lists(c)[vi] = DecList(c)
+                                      /\ \E pi \in 1..Len(Placements(c)) : ShrinkAtEof(c, DecList(c), Placements(c)[pi])
+      /\ \E vi \in 1..Len(Lists(c)) : \E i \in 1..Len(Lists(c)[vi]) : Lists(c)[vi][i].w * Lists(c)[vi][i].h >= 65536
+LawInv == /\ CoverInv
+          /\ IsCase => Law(k[1], Lists(k[1])[k[2]], Placements(k[1])[k[3]])
 
 \* ------------------------------------------------------------------ generator
 Emit ==
